@@ -277,44 +277,49 @@ Fixpoint local_tail (fuel : nat) (l : chars) : list chars * chars :=
 Definition mk_lseg (seg : chars) : lseg :=
   if forallb is_digit seg then LNum (num_of seg) else LStr (string_of_list_ascii (map lower seg)).
 
+Definition strip_v (l : chars) : chars :=                                   (* v? *)
+  match l with c :: r => if code c =? 118 then r else l | [] => l end.
+(* optional epoch 'digits !', given the leading digits already split off *)
+Definition epoch_split (ds r : chars) : N * chars * chars :=
+  match r with
+  | c :: r' => if code c =? 33 (* ! *) then let '(ds', r'') := span is_digit r' in (num_of ds, ds', r'')
+               else (0, ds, r)
+  | [] => (0, ds, r)
+  end.
+Definition opt_group (g : chars -> option (tag * chars)) (r : chars) : option tag * chars :=
+  match g r with Some (t, r') => (Some t, r') | None => (None, r) end.
+(* optional local label: '+' alnum-run (sep alnum-run)... ; None = a '+' with nothing usable after it *)
+Definition local_group (r : chars) : option (option (list lseg) * chars) :=
+  match r with
+  | c :: r' =>
+    if code c =? 43 (* + *) then
+      let '(seg, r'') := span is_alnum r' in
+      match seg with
+      | [] => None
+      | _ => let '(segs, r3) := local_tail (List.length r'') r'' in
+             Some (Some (map mk_lseg (seg :: segs)), r3)
+      end
+    else Some (None, r)
+  | [] => Some (None, r)
+  end.
+
 Definition parse_chars (orig : string) (l0 : chars) : option version :=
-  let l := map lower l0 in
-  let l := drop_spaces l in
-  let l := match l with c :: r => if code c =? 118 then r else l | [] => l end in   (* v? *)
+  let l := strip_v (drop_spaces (map lower l0)) in
   let '(ds, r) := span is_digit l in
   match ds with
   | [] => None
   | _ =>
-    let '(e, ds, r) :=
-      match r with
-      | c :: r' => if code c =? 33 (* ! *) then let '(ds', r'') := span is_digit r' in (num_of ds, ds', r'')
-                   else (0, ds, r)
-      | [] => (0, ds, r)
-      end in
+    let '(e, ds, r) := epoch_split ds r in
     match ds with
     | [] => None
     | _ =>
       let '(more, r) := release_tail (List.length r) r in
-      let release := num_of ds :: more in
-      let '(p, r) := match tagged pre_spellings r with Some (t, r') => (Some t, r') | None => (None, r) end in
-      let '(po, r) := match post_group r with Some (t, r') => (Some t, r') | None => (None, r) end in
-      let '(d, r) := match tagged dev_spellings r with Some (t, r') => (Some t, r') | None => (None, r) end in
-      let res :=
-        match r with
-        | c :: r' =>
-          if code c =? 43 (* + *) then
-            let '(seg, r'') := span is_alnum r' in
-            match seg with
-            | [] => None
-            | _ => let '(segs, r3) := local_tail (List.length r'') r'' in
-                   Some (Some (map mk_lseg (seg :: segs)), r3)
-            end
-          else Some (None, r)
-        | [] => Some (None, r)
-        end in
-      match res with
+      let '(p, r) := opt_group (tagged pre_spellings) r in
+      let '(po, r) := opt_group post_group r in
+      let '(d, r) := opt_group (tagged dev_spellings) r in
+      match local_group r with
       | None => None
-      | Some (lo, r) => if all_space r then Some (mkV e release p po d lo orig) else None
+      | Some (lo, r) => if all_space r then Some (mkV e (num_of ds :: more) p po d lo orig) else None
       end
     end
   end.
